@@ -3,7 +3,7 @@ collection ordering it relies on (features/cdscollection.py)."""
 # pylint: disable=no-self-argument,no-method-argument,missing-function-docstring
 from pyvc.dsl import (contract, spec, Int, Bool, Real, Str, Opt, OneOf, Rec, Ref, External, ListOf, SeqOf, SetOf,
                       DictOf, Const, Loop, implies, iff, forall, exists)
-from contracts.locations import FL
+from contracts.locations import FL, CL
 
 RECORD_FILE = "antismash/common/secmet/record.py"
 COLLECTION_FILE = "antismash/common/secmet/features/cdscollection.py"
@@ -31,15 +31,56 @@ def extents_overlap(a, b):
     return a.location.start < b.location.end and b.location.start < a.location.end
 
 
+@spec
+def sort_start(c):
+    """an area over the origin ([a, L) + [0, b)) sorts by where it starts before the origin, i.e. at a - L < 0"""
+    parts = c.location.parts
+    if len(parts) == 2:
+        return parts[0].start - parts[0].end
+    return parts[0].start
+
+
+@spec
+def extent_length(c):
+    return sum(p.end - p.start for p in c.location.parts)
+
+
+@spec
+def sorts_before_any(a, b):
+    """documented order of collections: by start (areas over the origin first, by their start before it), ties from longest to shortest"""
+    return (sort_start(a) < sort_start(b)
+            or (sort_start(a) == sort_start(b) and extent_length(a) > extent_length(b)))
+
+
+@spec
+def area_shape_ok(c):
+    """forward strand; two parts only as an area over the origin: [a, L) + [0, b) with b <= a"""
+    parts = c.location.parts
+    return (all(0 <= p.start and p.start < p.end
+                and (p.strand == 1 or (len(parts) == 1 and (p.strand == -1 or p.strand == 0))) for p in parts)
+            and (len(parts) == 1 or (parts[1].start == 0 and parts[1].end <= parts[0].start)))
+
+
+ANY_COLLECTION = Rec("CDSCollection", label="CollectionAnyShape", location=OneOf(FL, CL(2, 2)), _children=Const([]))
+
+
 @contract(f"{COLLECTION_FILE}::CDSCollection.__lt__", props=["C06", "C05"])
 class CollectionLessThan:
-    """`a < b` for two child-less collections on one stretch is the documented (start, longest first) order."""
-    params = {"self": COLLECTION, "other": COLLECTION}
+    """`a < b` for two child-less collections is the documented order: by start - an area over the origin sorts by its
+    start before the origin, ahead of everything else - and from longest to shortest among equal starts. Both areas
+    of one record (the parts before the origin end at the same record length)."""
+    params = {"self": ANY_COLLECTION, "other": ANY_COLLECTION}
 
     def requires(self, other):
-        return extent_ok(self) and extent_ok(other)
+        return (area_shape_ok(self) and area_shape_ok(other)
+                and implies(len(self.location.parts) == 2 and len(other.location.parts) == 2,
+                            self.location.parts[0].end == other.location.parts[0].end)
+                and implies(len(self.location.parts) == 2 and len(other.location.parts) == 1,
+                            other.location.end <= self.location.parts[0].end)
+                and implies(len(other.location.parts) == 2 and len(self.location.parts) == 1,
+                            self.location.end <= other.location.parts[0].end))
 
-    ensures = {"start-then-longest-first": lambda self, other, result: result == sorts_before(self, other)}
+    ensures = {"start-then-longest-first": lambda self, other, result: result == sorts_before_any(self, other)}
     returns = Bool
 
 
